@@ -108,3 +108,19 @@ Section Exec.
     destruct (chk l c); [apply IH|reflexivity].
   Qed.
 End Exec.
+
+(* the trace of a run is the initial trace followed by a prefix of the effect (and Unknown) labels of the list *)
+Definition loud_labels (steps : list step) : list str :=
+  flat_map (fun st => match st with Effect l => [l] | Unknown l => [l] | _ => [] end) steps.
+
+Lemma exec_trace_prefix {ctx} (chk : str -> ctx -> result unit) steps c : forall tr,
+  exists k, snd (exec chk steps c tr) = tr ++ firstn k (loud_labels steps).
+Proof.
+  induction steps as [|st t IH]; intros tr; [exists 0; cbn; now rewrite app_nil_r|].
+  destruct st; cbn [exec loud_labels flat_map app].
+  - destruct (chk l c); [apply IH|exists 0; cbn; now rewrite app_nil_r].
+  - destruct (IH (tr ++ [l])) as [k Hk]. exists (S k). rewrite Hk. cbn [firstn]. now rewrite <- app_assoc.
+  - apply IH.
+  - apply IH.
+  - destruct (IH (tr ++ [l])) as [k Hk]. exists (S k). rewrite Hk. cbn [firstn]. now rewrite <- app_assoc.
+Qed.
